@@ -765,7 +765,53 @@ def split_fact(expr, pol: bool, out: List[Tuple[ast.expr, bool]]):
         out.append((expr, pol))
 
 
-def guard_facts(fi: FuncInfo, node: ast.AST) -> List[Tuple[ast.expr, bool]]:
+_DUAL_OPS = {ast.NotIn: ast.In, ast.In: ast.NotIn, ast.NotEq: ast.Eq, ast.Eq: ast.NotEq, ast.IsNot: ast.Is, ast.Is: ast.IsNot}
+
+
+def _dual_facts(expr, pol):
+    """other spellings of the same fact (marked `_dual`): `a not in s` false == `a in s` true; `len(x) == 0`
+    true == `x` false.  They only widen what a rule can match; rules that COUNT conditions use canon_fact."""
+    out = []
+    if isinstance(expr, ast.Compare) and len(expr.ops) == 1 and type(expr.ops[0]) in _DUAL_OPS:
+        d = ast.Compare(left=expr.left, ops=[_DUAL_OPS[type(expr.ops[0])]()], comparators=expr.comparators)
+        out.append((ast.copy_location(d, expr), not pol))
+        c = expr.comparators[0]
+        if isinstance(expr.ops[0], (ast.Eq, ast.NotEq)) and isinstance(c, ast.Constant) and c.value == 0 and isinstance(expr.left, ast.Call) and isinstance(expr.left.func, ast.Name) and expr.left.func.id == "len" and len(expr.left.args) == 1:
+            # len(x) == 0  <->  not x
+            out.append((expr.left.args[0], (not pol) if isinstance(expr.ops[0], ast.Eq) else pol))
+    elif isinstance(expr, (ast.Name, ast.Attribute)):
+        ln = ast.Compare(left=ast.Call(func=ast.Name(id="len", ctx=ast.Load()), args=[expr], keywords=[]), ops=[ast.Eq()], comparators=[ast.Constant(value=0)])
+        out.append((ast.copy_location(ln, expr), not pol))
+    return out
+
+
+def canon_fact(expr, pol) -> Tuple[str, bool]:
+    """one spelling per fact: positive comparison operator, polarity carries the negation"""
+    if isinstance(expr, ast.Compare) and len(expr.ops) == 1 and isinstance(expr.ops[0], (ast.NotIn, ast.NotEq, ast.IsNot)):
+        d = ast.Compare(left=expr.left, ops=[_DUAL_OPS[type(expr.ops[0])]()], comparators=expr.comparators)
+        return norm(d), not pol
+    return norm(expr), pol
+
+
+def primary_facts(facts):
+    return [(e, p) for e, p in facts if not getattr(e, "_dual", False)]
+
+
+def guard_facts(fi: FuncInfo, node: ast.AST, duals: bool = False) -> List[Tuple[ast.expr, bool]]:
+    facts = _guard_facts(fi, node)
+    if duals:
+        # for rules that compare facts by EQUALITY of text and polarity: other spellings of the same fact are added
+        # (never for rules that test for a substring of a fact: a dual has the opposite polarity)
+        extra = []
+        for e, pol in facts:
+            for d, dp in _dual_facts(e, pol):
+                d._dual = True
+                extra.append((d, dp))
+        facts = facts + extra
+    return facts
+
+
+def _guard_facts(fi: FuncInfo, node: ast.AST) -> List[Tuple[ast.expr, bool]]:
     """Conditions known to hold whenever `node` is evaluated, derived from enclosing
     if/elif/else, if-expressions, preceding operands of and/or chains, comprehension filters,
     asserts and preceding `if c: raise/return/continue` statements in enclosing blocks.
